@@ -60,13 +60,15 @@ PROPS = {
         assumptions=[],
     ),
     'C10': dict(
-        level_text='Bounded model checking of the real format scanner against a token-grammar reference (every sequence of up to 3 tokens - 5 thorough - drawn from a 44-entry table of placeholders, literals, quoted/escaped/bracketed groups containing date letters, section separators, plain and elapsed date tokens), metamorphic relations on arbitrary printable-ASCII strings, the built-in id tables for all 2^16 codes / all 1-3 digit decimal ids, and the value wrapping for every f64/i64, format and date system.',
-        hosts={'src/formats.rs': ['c10_formats.rs']},
-        functions=['formats::detect_custom_number_format', 'formats::builtin_format_by_id', 'formats::builtin_format_by_code', 'formats::format_excel_f64_ref', 'formats::format_excel_f64', 'formats::format_excel_i64'],
-        bounds={'grammar': 'token sequences of length 1..=3 (4,5 thorough) over the 44-token table (both letter cases of the date and elapsed tokens)', 'raw strings': 'printable ASCII, length <= 4 (6 thorough)',
+        level_text='Bounded model checking of the real format scanner against a token-grammar reference (every sequence of up to 3 tokens - 5 thorough - drawn from a 49-entry table of placeholders, literals, quoted/escaped/bracketed groups containing date letters, section separators, plain and elapsed date tokens), metamorphic relations on arbitrary printable-ASCII strings, the built-in id tables for all 2^16 codes / all 1-3 digit decimal ids, and the value wrapping for every f64/i64, format and date system.',
+        hosts={'src/formats.rs': ['c10_formats.rs'], 'src/xlsb/mod.rs': ['c03_xlsb.rs'], 'src/xlsb/cells_reader.rs': ['c03_cells.rs'], 'src/xls.rs': ['c02_xls.rs']},
+        select=[r'^c10_', r'^c03_q_cell_(real|rk_int|rk_float)$', r'^c03_q_fmla_num$', r'^c02_q_(rk_int|rk_float|number)$'],
+        substitutions='C03',
+        functions=['xls::rk_num', 'xls::parse_number', 'xlsb::cell_format', 'xlsb::cells_reader::next_cell (numeric records)', 'formats::detect_custom_number_format', 'formats::builtin_format_by_id', 'formats::builtin_format_by_code', 'formats::format_excel_f64_ref', 'formats::format_excel_f64', 'formats::format_excel_i64'],
+        bounds={'grammar': 'token sequences of length 1..=3 (4,5 thorough) over the 49-token table (both letter cases of the date and elapsed tokens)', 'raw strings': 'printable ASCII, length <= 4 (6 thorough)',
                 'built-ins': 'all u16 codes; decimal ids of 1..=3 digits without leading zero'},
         outside=['building the style table from styles.xml / styles.bin / XF+FORMAT records (XML, zip, inline in parse_workbook)', 'non-ASCII format strings', 'the * fill escape',
-                 'per-record plumbing: decided under C02 (xls rk_num/parse_number with a symbolic format table) and C03 (xlsb)'],
+                 'styles tables; the per-record plumbing is included: xls rk_num/parse_number (c02_q_*) and xlsb next_cell + 24-bit iStyleRef (c03_q_cell_*) with a symbolic 3-entry format table'],
         assumptions=['stated restriction of the grammar reference: the first date-like token of the first section decides the class'],
     ),
     'C17': dict(
